@@ -667,7 +667,8 @@ radius_pkt_attr_get_from_offset(rad_pkt_hdr_p pkt, size_t offset,
 	if (NULL == pkt || NULL == attr_ret)
 		return (EINVAL);
 	pkt_size = RADIUS_PKT_HDR_LEN_GET(pkt);
-	if (offset < RADIUS_PKT_HDR_SIZE || offset > pkt_size)
+	if (offset < RADIUS_PKT_HDR_SIZE ||
+	    (offset + sizeof(rad_pkt_attr_t)) > pkt_size)
 		return (EINVAL);
 	attr = ((rad_pkt_attr_p)(((uint8_t*)pkt) + offset));
 	if (((uint8_t*)RADIUS_PKT_ATTR_NEXT(attr)) > (((uint8_t*)pkt) + pkt_size))
